@@ -1,5 +1,104 @@
-/- Driver.Scan — line protocol of the `scan` sub-harness (stub until the unit is built). -/
-import Ioc.Basic
+/-
+  Driver.Scan — line protocol of the `scan` sub-harness (C11).
+    in :  `<mode> <n> node*`   one component type in prefix notation (mode `G` / `X<k>` is ignored here)
+          node = L <name> <ty> <marker> <ntags> (<key> <valhex>)*
+               | S <name> <ty> <marker> <av|ap|nv|np> <ntags> (<key> <valhex>)* <nkids> node*
+    out:  `fields <n> <path>… props <m> <path>/<tag>/<ptype>/<valhex>/<args>…`
+          fields in scan order; properties of the five built-in scanners and of the custom `mytag`
+          scanner, sorted as text (path, then tag); args as in Driver.Tag.
+-/
+import Ioc.Scan
+import Driver.Tag
 namespace Driver.Scan
-def handle (_line : String) : String := "unimplemented"
+open Ioc Ioc.Scan
+
+def str (b : Bytes) : String := String.ofList (b.map fun x => Char.ofNat x.toNat)
+
+def isUpperName (s : String) : Bool :=
+  match s.toList with
+  | c :: _ => 'A' ≤ c && c ≤ 'Z'
+  | [] => false
+
+def readTags : Nat → List String → Option (List (Bytes × Bytes) × List String)
+  | 0, ts => some ([], ts)
+  | n+1, k :: v :: ts =>
+    match fromHex v, readTags n ts with
+    | some vb, some (r, ts') => some ((ofString k, vb) :: r, ts')
+    | _, _ => none
+  | _, _ => none
+
+def readInfo (name ty mk : String) (tags : List (Bytes × Bytes)) : Option FInfo :=
+  let marker : Option (Option Bytes) := if mk = "." then some none else (fromHex mk).map some
+  marker.map fun m => ⟨ofString name, isUpperName name, tags, ofString ty, m⟩
+
+mutual
+def readNode : Nat → List String → Option (FieldT × List String)
+  | 0, _ => none
+  | _+1, "L" :: name :: ty :: mk :: nt :: ts =>
+    match nt.toNat? with
+    | none => none
+    | some n =>
+      match readTags n ts with
+      | none => none
+      | some (tags, ts1) => (readInfo name ty mk tags).map fun i => (.leaf i, ts1)
+  | fuel+1, "S" :: name :: ty :: mk :: fl :: nt :: ts =>
+    match nt.toNat? with
+    | none => none
+    | some n =>
+      match readTags n ts with
+      | none => none
+      | some (tags, ts1) =>
+        match readInfo name ty mk tags, readKids fuel ts1 with
+        | some i, some (kids, ts2) =>
+          let anon := fl.startsWith "a"
+          let byv := fl.endsWith "v"
+          some (.struct i anon byv kids, ts2)
+        | _, _ => none
+  | _, _ => none
+def readKids : Nat → List String → Option (Shape × List String)
+  | 0, _ => none
+  | fuel+1, nk :: ts =>
+    match nk.toNat? with
+    | none => none
+    | some k => readSeq fuel k ts
+  | _, _ => none
+def readSeq : Nat → Nat → List String → Option (Shape × List String)
+  | 0, _, _ => none
+  | _+1, 0, ts => some (.nil, ts)
+  | fuel+1, k+1, ts =>
+    match readNode fuel ts with
+    | none => none
+    | some (f, ts1) =>
+      match readSeq fuel k ts1 with
+      | none => none
+      | some (r, ts2) => some (.cons f r, ts2)
+end
+
+def customTag : Bytes := ofString "mytag"
+
+/-- the scanners registered in a harness run: the built-in five and the recording processor -/
+def procs : List TagProc := builtinProcs ++ [customProc ntConfiguration customTag]
+
+def showPath (p : List Bytes) : String := joinWith "." (p.map str)
+
+def showProp (p : Property) : String :=
+  showPath p.field.fullPath ++ "/" ++ str p.tag ++ "/" ++ str p.nodeType ++ "/" ++ toHex p.tagVal ++ "/" ++ Driver.Tag.showArgs p.args
+
+def render (sh : Shape) : String :=
+  let fs := scan sh
+  let head := "fields " ++ toString fs.length ++ String.join (fs.map fun f => " " ++ showPath f.fullPath)
+  match properties? procs fs with
+  | none => head ++ " panic"
+  | some ps =>
+    let lines := isort (fun a b => decide (a < b)) (ps.map showProp)
+    head ++ " props " ++ toString lines.length ++ String.join (lines.map fun l => " " ++ l)
+
+def handle (line : String) : String :=
+  match (line.splitOn " ").filter (· ≠ "") with
+  | _mode :: ts =>
+    match readKids (3 * ts.length + 10) ts with
+    | some (sh, []) => render sh
+    | _ => "bad-line"
+  | [] => "bad-line"
+
 end Driver.Scan
